@@ -153,12 +153,25 @@ def stream_settings(ctx, res, printed):
         reqs_t.append((1302, [rel, fit, oq(w), oq(h), wl]))
     models = oracle_batch(reqs_m)
     trans = oracle_batch(reqs_t)
+    texts = oracle_batch([(1321, a) for _, a in reqs_m])     # wave 7: the settings TEXT of the model (model/VttText.v)
+    text_same = text_tie = text_neg = 0
     ok_reqs, ok_idx = [], []
     outside = 0
     refused = 0
     for i, ((l, rel, fit, (w, h)), o, m, t) in enumerate(zip(cases, obs, models, trans)):
         res["evaluations"] += 1
         mm = r_result(m)
+        mt = r_result(texts[i])
+        if isinstance(o, Ok) and isinstance(mt, Ok):
+            if o.v == mt.v:
+                text_same += 1
+            elif isinstance(mm, Ok) and mm.v[0] == 2 and any(x != [] and x[0][0][0] < 0 for x in mm.v[2:5]):
+                text_neg += 1        # a negative length (paddings wider than the cue) is outside the size language: not compared as text
+            elif [x.split(":")[0] for x in o.v.split()] == [x.split(":")[0] for x in mt.v.split()] and same_out(mm.v, o.v, printed):
+                text_tie += 1        # same keys in the same order, a value printed on the other side of a binary64 rounding tie
+            else:
+                res["disagreements"].append({"replay": "settings", "input": [l, rel, fit, w, h], "stream": "settings-text",
+                                             "impl": o.v, "model": mt.v})
         base = {"replay": "settings", "input": [l, rel, fit, w, h]}
         if isinstance(o, Err) or isinstance(mm, Err):
             refused += 1         # refusal / error class: C13's business - counted
@@ -197,6 +210,8 @@ def stream_settings(ctx, res, printed):
                                               f"(omitted iff center) / position = x + left padding / line = y + top padding / "
                                               f"size = width - left - right padding"})
     res["distribution"]["settings_cases"] = len(cases)
+    res["distribution"]["settings_text_identical_to_the_model's(request 1321) / differing by a rounding tie only / negative size (not compared)"] = \
+        [text_same, text_tie, text_neg]
     res["distribution"]["settings_arithmetic_checked"] = len(ok_idx)
     res["distribution"]["settings_cases_outside_the_statement(no origin / not resolvable to percentages: counted)"] = outside
     res["distribution"]["settings_cases_refused_or_raising(C13: counted)"] = refused
